@@ -435,6 +435,9 @@ def run(repo: Repo, rep: Report, tier: str) -> None:
                               f"`{norm(n)[:80]}` re-anchors the blueprint: with a snapping grid the game places the blueprint relative to the grid, entities no longer land on the tiles the program named", f9.loc(n))
     rep.floor("C09-R9", "blueprint-level attribute stores", n9, 3)
 
+    # ---------------- R10 --------------------------------------------------------------
+    _borrow9(repo, rep, "C15", "C15-R16", "C09-R10", "a `place` inside a loop inside a function is executed: the function body keeps every statement kind the program wrote", floor=1)
+
 
 
 def _deep(du: DefUse, e: ast.AST, depth: int = 0) -> list[ast.AST]:
